@@ -30,9 +30,18 @@
      VPinned    the code as pinned: write = channel<-v, deferred loop = range output.
      VBuffered  VPinned with make(chan any, 1) (the rejected repair).
 
+   [safe_out] selects the output protocol: false = finish() closes done and output and
+   guardedWriter.Write sends unguarded after its check (a reducer blocked in the send is
+   woken by the close with the runtime's "send on closed channel": finding F13); true =
+   output is never closed, Write = check; select {channel <- v | <-done} (the blocked
+   writer - reducer or a mapper on the full collector - is woken by close(done) and the
+   value is dropped), the caller's selects take <-done where they took the closed output.
+
    Granularity assumptions (validated by the correspondence run and the -race
    free run): recover + failed++ + CompareAndSwap(wrote) is one step; the guard
-   check of guardedWriter.Write happens in the step that starts the Write;
+   check of guardedWriter.Write happens in the step that starts the Write (for
+   safe_out a writer that arrives after the check with done closing before its select
+   is treated as woken by done: done has priority over a free collector slot);
    close(done);close(output) is one step. *)
 From Coq Require Import List ZArith Bool Arith.
 Import ListNotations.
@@ -103,7 +112,10 @@ Record config := mkCfg
     workers : nat;
     gscript : list uact;
     mscript : Z -> list uact;
-    rscript : list uact }.
+    rscript : list uact;
+    safe_out : bool }.         (* the F13 repair: [output] is never closed and guardedWriter.Write is
+                                  select { channel <- v | <-done } after its guard (false = the code
+                                  with finish() = close(done); close(output) and a bare send) *)
 
 Record mapper := mkMapper { mitem : Z; mpc : pc }.
 
@@ -350,8 +362,12 @@ Definition user_step (c : config) (r : role) (s : state) (p : pc) : option (stat
   | SendPend y rest =>
     match r with
     | RGen => None                                     (* completed by the receiver *)
-    | RMap => if length (coll s) <? workers c then Some (coll_push s y, Gate rest) else None
-    | RRed => if finished s then Some (s, Epi (Some PClosed)) else None
+    | RMap => if safe_out c && finished s then Some (s, Gate rest)   (* woken by close(done): value dropped *)
+              else if length (coll s) <? workers c then Some (coll_push s y, Gate rest) else None
+    | RRed => if finished s
+              then (if safe_out c then Some (s, Gate rest)           (* woken by close(done): value dropped *)
+                    else Some (s, Epi (Some PClosed)))               (* woken by close(output): runtime panic *)
+              else None
     end
   | CancelPend e rest =>
     match cstate s with
